@@ -9,6 +9,7 @@ import (
 	"net"
 	"strconv"
 	"strings"
+	"sync"
 	"testing"
 	"time"
 
@@ -221,6 +222,60 @@ func runC17(t *testing.T, rng *rand.Rand, rec *sim.Rec, tier string, caseNo int)
 		}
 	}
 	rec.SetSample(map[string]any{"kind": kind.name, "duration": dur.String(), "user": user, "username": username})
+	if caseNo%5 == 2 {
+		c17Concurrent(rng, rec, kind, secret, realm)
+	}
+}
+
+// c17Concurrent: one handler value serves every listener of a server, so it is called from
+// several goroutines at once; each caller must still get the key of its own username.
+func c17Concurrent(rng *rand.Rand, rec *sim.Rec, kind credKind, secret, realm string) {
+	handler := kind.handler(secret)
+	const callers, calls = 8, 1500
+	type bad struct{ u, what string }
+	out := make([][]bad, callers)
+	users := make([]string, callers)
+	for i := range users {
+		u, _, err := kind.gen(secret, fmt.Sprintf("user-%d-%d", i, rng.Intn(1000)), time.Duration(1+rng.Intn(48))*time.Hour)
+		if err != nil {
+			return
+		}
+		users[i] = u
+	}
+	var wg sync.WaitGroup
+	for i := 0; i < callers; i++ {
+		wg.Add(1)
+		go func(i int) {
+			defer wg.Done()
+			defer func() {
+				if r := recover(); r != nil {
+					out[i] = append(out[i], bad{users[i], fmt.Sprintf("panic: %v", r)})
+				}
+			}()
+			want := string(wire.LongTermKey(users[i], realm, refPassword(users[i], secret)))
+			for k := 0; k < calls; k++ {
+				_, key, ok := handler(&turn.RequestAttributes{Username: users[i], Realm: realm})
+				if !ok {
+					out[i] = append(out[i], bad{users[i], "rejected"})
+
+					return
+				}
+				if string(key) != want {
+					out[i] = append(out[i], bad{users[i], "wrong key"})
+
+					return
+				}
+			}
+		}(i)
+	}
+	wg.Wait()
+	for _, bs := range out {
+		for _, b := range bs {
+			rec.Violate("cred-key-wrong", kind.name+"/concurrent", "%s handler called from %d goroutines at once: valid credential %q: %s", kind.name, callers, b.u, b.what)
+		}
+	}
+	rec.EvN("concurrent-handler-calls", callers*calls)
+	rec.FP("%s/concurrent", kind.name)
 }
 
 func min64(a, b int64) int64 {
